@@ -79,7 +79,7 @@ Proof.
   intros s e [h4 h5 h7].
   destruct s as [pend0 rbuf0 token0 closeN0 ss0 epc0 ppc0 lc0 sclosing0 dpc0 now0 dl0 tmr0 tch0 ptick0 use_t0 armed0 rd0 minsz0 res0].
   cbn in h4, h5, h7.
-  destruct e; cbn [step]; unfold reader_step, wake, finish_early, finish_late, move_to, set_rd;
+  destruct e; cbn [step]; unfold reader_step, wake, take_tick, finish_early, finish_late, move_to, set_rd;
     cbn [pend rbuf token closeN ss epc ppc lc sclosing dpc now dl tmr tch ptick use_t armed rd minsz res];
     brk; cbn; intros A B; try congruence.
   (* the only case left: the parked select took the timer branch *)
